@@ -7,10 +7,10 @@ git -C /repo worktree add --detach $wt HEAD -q || exit 2
 cp $out/demo${k}_test.go $wt/$pkg/zz_demo${k}_test.go
 cd $wt
 export GOFLAGS=-mod=mod GOPROXY=off
-go test -count=1 -run "$tname" ./$pkg/ > /tmp/val_clean.log 2>&1; rc_clean=$?
+go test $VAL_EXTRA -count=1 -run "$tname" ./$pkg/ > /tmp/val_clean.log 2>&1; rc_clean=$?
 git apply $out/patch$k.diff || { echo "PATCH FAILS TO APPLY"; cd /; git -C /repo worktree remove --force $wt; exit 2; }
 go build ./... || { echo "BUILD FAILS"; cd /; git -C /repo worktree remove --force $wt; exit 2; }
-go test -count=1 -run "$tname" ./$pkg/ > /tmp/val_patched.log 2>&1; rc_patched=$?
+go test $VAL_EXTRA -count=1 -run "$tname" ./$pkg/ > /tmp/val_patched.log 2>&1; rc_patched=$?
 rm $wt/$pkg/zz_demo${k}_test.go
 go test -count=1 ./... > /tmp/val_suite.log 2>&1
 fails=$(grep -E "^(--- FAIL|FAIL)" /tmp/val_suite.log | grep -v -E "TestParseRedirAddr|internal/server\s|internal/test|^FAIL$" | head -5)
